@@ -87,12 +87,12 @@ ChoicesHdrs == { y \in (IF K = 1 THEN 1..Len(FLs) ELSE {1, 6}) \X (UNION { [1..k
 MsgHdrs(x) == GenMsg(0, 34, FLs[x[1]], CRLF, Lines(x[2]), x[3], BODY0, -1, 0, 64)
 
 \* slice "framing": 1..2 pool lines + optional Content-Length line (long / compact name, first or last),
-\* declared length smaller / equal / larger than the body, all 8 flag sets: C06
+\* declared length smaller / equal / larger than the body (also by a multiple of 65536: offsets are 16 bit), all 8 flag sets: C06
 FramingLines(idx, clen, pos, nm) ==
   IF clen < 0 THEN Lines(idx)
   ELSE IF pos = 0 THEN <<CLenLine(nm, clen, CRLF)>> \o Lines(idx) ELSE Lines(idx) \o <<CLenLine(nm, clen, CRLF)>>
 ChoicesFraming == {1, 6} \X (UNION { [1..k -> {1, 8, 11, 14, 19, 33}] : k \in 1..(IF K > 2 THEN 2 ELSE K) })
-                  \X {-1, 0, 2, 3, 4, 12, 13, 600} \X {0, 1} \X {N_CLen, N_l} \X (1..Len(Bodies)) \X (0..7) \X {CRLF, LFONLY}
+                  \X {-1, 0, 2, 3, 4, 12, 13, 600, 65536, 65539, 65548, 131075} \X {0, 1} \X {N_CLen, N_l} \X (1..Len(Bodies)) \X (0..7) \X {CRLF, LFONLY}
 \* (the blank line is CRLF or a lone LF -- the latter also as the very last byte of the buffer when the body is empty)
 MsgFraming(x) == GenMsg(0, 34, FLs[x[1]], CRLF, FramingLines(x[2], x[3], x[4], x[5]), x[8], Bodies[x[6]], x[3], x[7], 64)
 
